@@ -78,6 +78,25 @@ def push (better : Nat → Nat → Bool) (h : Heap) (ptr : Nat) : Heap :=
   let h3 := set h2 pos ptr
   bubbleUp better pos h3 pos
 
+/-! #### the same with the allocator as an oracle: `ok = false` means `cx_realloc` returns NULL -/
+
+/-- does `heap_reserve(h, extra)` call the allocator at all -/
+def reserveAllocs (h : Heap) (extra : Nat) : Bool := !decide (h.used + extra < h.allocated)
+
+/-- `heap_reserve` → (heap, return value) -/
+def reserveO (ok : Bool) (h : Heap) (extra : Nat) : Heap × Bool :=
+  if h.used + extra < h.allocated then (h, true)
+  else if ok then (reserve h extra, true)          -- h->data = tmp; h->allocated = newalloc
+  else (h, false)                                  -- if (!tmp) return false;
+
+/-- `heap_push` → (heap, return value) -/
+def pushO (ok : Bool) (better : Nat → Nat → Bool) (h : Heap) (ptr : Nat) : Heap × Bool :=
+  if h.used ≥ h.allocated then
+    let r := reserveO ok h 1
+    if r.2 = false then (h, false)                 -- if (!heap_reserve(h, 1)) return false;
+    else (push better h ptr, true)
+  else (push better h ptr, true)
+
 /-- `heap_remove`: new heap and the removed object (0 = NULL) -/
 def remove (better : Nat → Nat → Bool) (h : Heap) (pos : Nat) : Heap × Nat :=
   if pos ≥ h.used then (h, 0)
